@@ -551,10 +551,10 @@ class ndarray(metaclass=_NdMeta):
         return _reduce(self, axis, lambda a, b: b2i(a) + b2i(b), None, ident=0)
 
     def all(self, axis=None):
-        return _reduce(self, axis, lambda a, b: And(truth(a), truth(b)), None, ident=True, pre=truth)
+        return _npbool(_reduce(self, axis, lambda a, b: And(truth(a), truth(b)), None, ident=True, pre=truth))
 
     def any(self, axis=None):
-        return _reduce(self, axis, lambda a, b: Or(truth(a), truth(b)), None, ident=False, pre=truth)
+        return _npbool(_reduce(self, axis, lambda a, b: Or(truth(a), truth(b)), None, ident=False, pre=truth))
 
     def mean(self, axis=None):
         n = len(self._d) if axis is None else self.shape[axis]
@@ -731,6 +731,15 @@ class ndarray(metaclass=_NdMeta):
         for e in self._d:
             r = Or(r, eq_(e, x))
         return _pybool(r)
+
+
+def _npbool(r):
+    """numpy returns np.bool_ from reductions: `~np.all(x)` must be a logical not, not Python's ~True == -2"""
+    if isinstance(r, _pybool):
+        return _rnp.bool_(r)
+    if isinstance(r, ndarray) and r.dtype.kind != "b":
+        r.dtype = bool_
+    return r
 
 
 def _fix_shape(shp, size):
